@@ -143,6 +143,8 @@ func (r *recorder) hook(ev string, kv ...any) {
 	u, _ := m["id"].(string)
 	switch ev {
 	case "lock.enq":
+		// (fresh lookup: with a lock that prunes empty queues the address of a dead queue object can be reused)
+		delete(r.qkey, m["q"])
 		k, known := r.keyOf(m["q"])
 		if !known {
 			return // a lock object of an earlier run
@@ -1019,17 +1021,52 @@ func stress(tracePath string, runs, nprocs, nkeys, ops int, seed int64, residue 
 		}
 		done := make(chan struct{})
 		go func() { wg.Wait(); close(done) }()
-		select {
-		case <-done:
-		case <-time.After(300 * time.Second):
-			close(hung)
-			tw.Emit(map[string]any{"ev": "hang", "p": "", "k": "", "id": 0, "found": 0, "ids": []int{}, "cause": fmt.Sprint(states())})
-			tw.Close()
-			return fmt.Errorf("stress run %d did not finish", r)
-		}
 		pcs := map[string]string{}
 		for i := 0; i < nprocs; i++ {
 			pcs["p"+strconv.Itoa(i+1)] = "idle"
+		}
+		// wait for the run to finish - or for a point of rest at which somebody is still inside Lock: every caller
+		// goroutine that has not finished is parked (select / chan receive) and the log has not grown, 200 dumps in a row
+		still, lastLen := 0, -1
+		var stillSince time.Time
+	waitRun:
+		for {
+			select {
+			case <-done:
+				break waitRun
+			case <-time.After(5 * time.Millisecond):
+			}
+			st := states()
+			rec.mu.Lock()
+			parked, unfinished := 0, 0
+			for _, p := range rec.byGoid {
+				unfinished++
+				if s := st[p.goid]; s == "select" || s == "chan receive" {
+					parked++
+				}
+			}
+			rec.mu.Unlock()
+			if unfinished > 0 && parked == unfinished && tw.Len() == lastLen {
+				if still == 0 {
+					stillSince = time.Now()
+				}
+				still++
+			} else {
+				still = 0
+			}
+			lastLen = tw.Len()
+			// (a TTL of at most 400 us is the longest anybody legitimately waits for here; 20 s of complete standstill in
+			// several hundred consecutive dumps is not a slow machine)
+			if still >= 400 && time.Since(stillSince) > 20*time.Second {
+				rec.mu.Lock()
+				for _, p := range rec.byGoid {
+					pcs[p.name] = "waiting"
+				}
+				rec.mu.Unlock()
+				emitRest(tw, pcs, qmapOf(l))
+				close(hung)
+				return tw.Close() // the log ends here: the rest line is the observation (somebody never gets the lock)
+			}
 		}
 		emitRest(tw, pcs, qmapOf(l))
 	}
